@@ -1,5 +1,5 @@
 """Property -> rules wiring.  Each function returns kwargs for Ctx.finish()."""
-from . import control, history, descent, warm, degenerate, feasible, plumb, matrix, storage, formulas, penalgebra
+from . import control, history, descent, warm, degenerate, feasible, plumb, matrix, storage, formulas, penalgebra, misc
 
 TB = ["CPython ast", "role seeds: positional parameters of BaseSolver._solve and the "
       "fixed slot-method names of the datafit/penalty interface"]
@@ -16,7 +16,8 @@ def c01(A, ctx, tier):
     control.r_retstop(A, ctx, dict(scope, floor=6))
     control.r_anderson(A, ctx, scope)
     control.r_lbfgs(A, ctx, scope)
-    formulas.r_istep(A, ctx, dict(floor=5), rule="R-CERT-SCALE", require_scale=True)
+    formulas.r_cert_scale(A, ctx, dict(exempt=EX01, floor=3))
+    misc.r_accreset(A, ctx, dict(floor=2))
     for k, v in EX01.items():
         ctx.note(f"out of scope {k}: {v}")
     ctx.assume("a score <= tol implies eps-stationarity numerically (not decided)")
@@ -45,6 +46,7 @@ def c04(A, ctx, tier):
     feasible.r_inf(A, ctx, dict(floor=8))
     feasible.r_pos(A, ctx, dict(floor=10))
     feasible.r_write(A, ctx, dict(floor=15))
+    misc.r_zerocol(A, ctx, dict(floor=10))
     ctx.assume("finiteness under overflow/cancellation is not decided")
     return dict(explanation="feasibility at every stopping point: only prox outputs, "
                 "guarded extrapolations, line-search combinations and the intercept are "
@@ -59,6 +61,7 @@ def c05(A, ctx, tier):
     warm.r_path(A, ctx, dict(floor=8))
     warm.r_warmfit(A, ctx, dict(floor=5))
     warm.r_cache(A, ctx, {})
+    misc.r_alias(A, ctx, dict(floor=10))
     ctx.assume("a consistent (w_init, Xw_init) pair is the caller's contract")
     return dict(explanation="warm starts and paths: optional-argument idiom, pairing of "
                 "every coefficient store with its model-fit delta, path discipline "
@@ -84,6 +87,8 @@ def c19(A, ctx, tier):
                 and f.module.name != "skglm.utils.prox_funcs"]
     degenerate.r_div(A, ctx, dict(floor=15), where=where)
     degenerate.r_loop(A, ctx, dict(floor=100))
+    misc.r_sibguard(A, ctx, dict(floor=8))
+    misc.r_zerocol(A, ctx, dict(floor=10))
     ctx.assume("finiteness under overflow and rank-deficient non-zero designs are not decided")
     return dict(explanation="degenerate data: every division by a data-derived "
                 "magnitude in solver code is dominated by a non-zero fact; every loop is "
@@ -94,6 +99,7 @@ def c11(A, ctx, tier):
     plumb.r_plumb(A, ctx, dict(floor=150))
     plumb.r_who(A, ctx, dict(floor=13))
     warm.r_none_deref(A, ctx, dict(floor=1))
+    misc.r_grporder(A, ctx, dict(floor=6))
     ctx.assume("stationarity of the fitted coefficients is C01's business; the "
                "docstring-formula <-> class correspondence is not decided")
     return dict(explanation="constructor-argument plumbing of the 12 estimators: every "
@@ -116,6 +122,8 @@ def c18(A, ctx, tier):
     plumb.r_pure(A, ctx, dict(floor=25))
     plumb.r_state(A, ctx, dict(floor=8))
     warm.r_cache(A, ctx, {})
+    storage.r_solverstate(A, ctx, dict(floor=25))
+    warm.r_path(A, ctx, dict(floor=8), rule="R-PATH-PURE")
     ctx.note("spectral_norm draws its start vector from Numba's process-wide generator "
              "(np.random.randn inside an njit function): sparse global Lipschitz constants "
              "depend on how many draws happened before; informational (the power method's "
@@ -132,6 +140,8 @@ def c10(A, ctx, tier):
     storage.r_dispatch(A, ctx, dict(floor=15))
     storage.r_convert(A, ctx, dict(floor=6))
     storage.r_solverstate(A, ctx, dict(floor=25))
+    misc.r_sparsetest(A, ctx, dict(floor=15))
+    misc.r_sibguard(A, ctx, dict(floor=8))
     ctx.assume("equality 'up to solver tolerance' of converged results is numerical and not decided")
     return dict(explanation="storage independence (structural part): CSC triples are "
                 "passed in (data, indptr, indices) order at every call site; every sparse/"
@@ -145,6 +155,7 @@ def c13(A, ctx, tier):
     matrix.r_matrix(A, ctx, dict(floor=12000), tier=tier)
     history.r_unbound(A, ctx, dict(floor=20))
     plumb.r_who(A, ctx, dict(floor=13))
+    misc.r_sparsetest(A, ctx, dict(floor=15))
     ctx.assume("accepted cells returning finite certified values is numerical (C01/C19)")
     return dict(explanation="every cell of the solver x datafit x penalty x storage x knob "
                 "matrix is classified statically: refused by validation, or accepted with "
@@ -246,6 +257,7 @@ def c09(A, ctx, tier):
 def c14(A, ctx, tier):
     penalgebra.r_red(A, ctx, dict(floor=35))
     plumb.r_who(A, ctx, dict(floor=13))
+    misc.r_grporder(A, ctx, dict(floor=6))
     ctx.assume("limit reductions (gamma -> inf, delta -> inf), SLOPE vs L1, Efron vs Breslow "
                "without ties, Gram vs CD, integer weights vs replicated rows are not decided")
     return dict(explanation="method-by-method equality of lifted terms under the substitution "
